@@ -884,6 +884,46 @@ fn main() {
                 ed.derive_keep = Some(d.derive.clone().unwrap_or_else(|| "Clone, Copy, PartialEq, Eq".into()));
                 ed.visit_item(it);
                 ed.finish_cfg();
+                // E13: visibility widened to `pub` (specifications mention private fields / types)
+                {
+                    let mut pubs: Vec<usize> = vec![];
+                    let inherited = |v: &syn::Visibility| matches!(v, syn::Visibility::Inherited);
+                    match it {
+                        syn::Item::Struct(st) => {
+                            if inherited(&st.vis) {
+                                pubs.push(st.struct_token.span().byte_range().start);
+                            }
+                            for f in &st.fields {
+                                if inherited(&f.vis) {
+                                    let p = match &f.ident {
+                                        Some(id) => id.span().byte_range().start,
+                                        None => f.ty.span().byte_range().start,
+                                    };
+                                    pubs.push(p);
+                                }
+                            }
+                        }
+                        syn::Item::Enum(en) => {
+                            if inherited(&en.vis) {
+                                pubs.push(en.enum_token.span().byte_range().start);
+                            }
+                        }
+                        syn::Item::Type(t) => {
+                            if inherited(&t.vis) {
+                                pubs.push(t.type_token.span().byte_range().start);
+                            }
+                        }
+                        syn::Item::Const(t) => {
+                            if inherited(&t.vis) {
+                                pubs.push(t.const_token.span().byte_range().start);
+                            }
+                        }
+                        _ => {}
+                    }
+                    for p in pubs {
+                        ed.push(p, p, "pub ", "E13-pub", false);
+                    }
+                }
                 if !ed.errors.is_empty() {
                     die(&format!("{ctx}: {}", ed.errors.join("; ")));
                 }
